@@ -832,10 +832,25 @@ def _run_seq(M, case):
     """many calls in one process: every user table is built, used and dropped before the next one is built (CPython
     then hands the new array the id/memory of the old one); "reuse" steps edit the previous table object in place and
     call again with the very same object"""
+    import signal, time
     outs = []
     table = None
+
+    def on_alarm(signum, frame):
+        raise TimeoutError("step timeout")
+    try:
+        old_handler = signal.signal(signal.SIGALRM, on_alarm)
+        remaining = signal.alarm(0)
+    except ValueError:                                   # not in the main thread
+        old_handler, remaining = None, 0
+    t0 = time.time()
     for st in case["steps"]:
+        if time.time() - t0 > 12:                        # several hanging steps: do not starve the worker's watchdog
+            outs.append({"exc": "TimeoutError", "msg": "sequence budget used up by hanging steps"})
+            continue
         try:
+            if old_handler is not None:
+                signal.alarm(4)                          # a step is a call of milliseconds
             if st["fn"] == "op":
                 outs.append(_call_op(M, st))
                 continue
@@ -848,6 +863,13 @@ def _run_seq(M, case):
             outs.append(_call_tl(M, st, table))
         except Exception as e:                                 # noqa: outcome of that step
             outs.append({"exc": type(e).__name__, "msg": str(e)[:200]})
+        finally:
+            if old_handler is not None:
+                signal.alarm(0)
+    if old_handler is not None:
+        signal.signal(signal.SIGALRM, old_handler)
+        if remaining:
+            signal.alarm(max(1, int(remaining - (time.time() - t0))))
     return {"steps": outs}
 
 
@@ -868,7 +890,7 @@ def _run_seq_isolated(case):
     """the same sequence in a process of its own, so that the outcome depends on nothing but the case (a replay
     reproduces it)"""
     import json, subprocess, sys
-    r = subprocess.run([sys.executable, "-c", _ISO], input=json.dumps(case), capture_output=True, text=True, timeout=120)
+    r = subprocess.run([sys.executable, "-c", _ISO], input=json.dumps(case), capture_output=True, text=True, timeout=60)
     if r.returncode != 0:
         return {"exc": "SubprocessError", "msg": r.stderr[-300:]}
     return json.loads(r.stdout.strip().splitlines()[-1])
@@ -900,7 +922,9 @@ def _impl_safe(case):
         raise TimeoutError("case timeout")
     try:
         signal.signal(signal.SIGALRM, on_alarm)
-        signal.alarm(CASE_TIMEOUT)
+        # a call estimated at milliseconds that has not returned after 6 s is hanging (a verdict that shrinking and
+        # the replay re-establish sequentially with the full CASE_TIMEOUT)
+        signal.alarm(6 if _cost(case) < 0.2 else CASE_TIMEOUT)
         try:
             return _impl1(case)
         finally:
